@@ -454,7 +454,7 @@ class Node(object):
         else:
             total_time = sum(self.all_servers_total) + sum(server.total_time for server in self.servers)
             busy_time = sum(self.all_servers_busy) + sum(server.busy_time for server in self.servers)
-            self.server_utilisation = busy_time / total_time
+            self.server_utilisation = busy_time / total_time if total_time > 0 else None
 
     def finish_service(self):
         """
